@@ -58,7 +58,20 @@ def eq_edges_of(edges, field):
     return out
 
 
-CHECK_NAMES = ('ca', 'guid', 'sig', 'c1', 'c2')
+def peer_edges_of(edges):
+    """Edges on which the participant GUID (prefix) inside the received c.pdata equals the GUID prefix remembered for the remote participant the handshake is with."""
+    out = []
+    for s_, t_, cond, lab in edges:
+        if cond[0] == 'call' and cond[1].endswith(('::ne', '::eq')) and len(cond[2]) == 2:
+            a, b = cond[2]
+            for x, y in ((a, b), (b, a)):
+                if has_field(x, 'participant_guid') and has_call(x, 'from_pl_cdr_bytes') and has_field(y, 'guid_prefix') and not has_call(y, 'from_pl_cdr_bytes'):
+                    if (cond[1].endswith('::ne') and lab is False) or (cond[1].endswith('::eq') and lab is True):
+                        out.append((s_, t_))
+    return out
+
+
+CHECK_NAMES = ('ca', 'guid', 'sig', 'c1', 'c2', 'peer')
 
 
 def _local_check_edges(fx, b, edges):
@@ -71,6 +84,7 @@ def _local_check_edges(fx, b, edges):
         'sig': ok_edges_of(edges, 'Certificate::verify_signed_data_with_algorithm'),
         'c1': eq_edges_of(edges, 'challenge1'),
         'c2': eq_edges_of(edges, 'challenge2'),
+        'peer': peer_edges_of(edges),
     }
 
 
@@ -177,7 +191,8 @@ def run(rep, facts, tier):
     rep.assume('X.509 chain verification, ECDH and signature algorithms are correct', 'replay across sessions beyond the challenge equalities is not decided')
     rep.rule('R19.1', 'state pairing: after mem::swap takes the handshake state out, every path to a return stores a state back into handshake.state')
     rep.rule('R19.2', 'verify before trust: every store of CompletedWithFinalMessage* and every compute_shared_secret is dominated by verify_signed_by_certificate(identity_ca) '
-                      '(or the certificate verified in the previous step), validate_remote_guid, the challenge equalities and the signature verification')
+                      '(or the certificate verified in the previous step), validate_remote_guid, the equality of the certified GUID prefix (from c.pdata) with the prefix remembered for '
+                      'the remote participant the handshake is with, the challenge equalities and the signature verification')
     rep.rule('R19.3', 'no verification result in the authentication module is discarded')
 
     ph = find_method(fx, 'process_handshake')
@@ -240,7 +255,7 @@ def run(rep, facts, tier):
             n_sites += 1
             variant = st['rv']['variant']
             if variant.endswith('Sent'):
-                need = [('identity CA check of the peer certificate', ca_ok), ('GUID binding check', guid_ok), ('challenge1 echo', c1_ok), ('reply signature', sig_ok)]
+                need = [('identity CA check of the peer certificate', ca_ok), ('GUID binding check', guid_ok), ('certified GUID is the GUID of this remote', chk['peer']), ('challenge1 echo', c1_ok), ('reply signature', sig_ok)]
             else:
                 need = [('challenge1 echo', c1_ok), ('challenge2 echo', c2_ok), ('final signature', sig_ok)]
             for what, es in need:
@@ -267,7 +282,7 @@ def run(rep, facts, tier):
     for bb, si, st in br.statements():
         if st['s'] == 'assign' and st['rv']['r'] == 'agg' and st['rv'].get('variant') == 'PendingFinalMessage':
             n2 += 1
-            for what, es in (('identity CA check of the peer certificate', ca2), ('GUID binding check', guid2)):
+            for what, es in (('identity CA check of the peer certificate', ca2), ('GUID binding check', guid2), ('certified GUID is the GUID of this remote', peer_edges_of(e2))):
                 ok = bool(es) and P2.every_path_passes(None, (bb, si), via_edges=es + inf2, from_entry=True)
                 rep.check(ok, 'R19.2', 'begin_handshake_reply/PendingFinalMessage/%s' % what.replace(' ', '-'), 'dominated by %s' % what,
                           'begin_handshake_reply can accept a request (state PendingFinalMessage) without the %s having succeeded' % what, br.where(bb, si))
@@ -277,6 +292,18 @@ def run(rep, facts, tier):
             rep.check(okc, 'R19.2', 'begin_handshake_reply/remembered-certificate', 'the certificate stored for the final step is the one parsed from the request',
                       'the certificate stored for verifying the final message is not the request certificate that was checked', br.where(bb, si))
     rep.floor('R19.2', n2, 1, 'transition to PendingFinalMessage')
+    # the GUID prefix the comparison uses is the one validate_remote_identity was given for this remote
+    vr = find_method(fx, 'validate_remote_identity')
+    rep.analysed(vr)
+    ogv = Origins(vr, summaries=True)
+    okp = False
+    for bb, si, st in vr.statements():
+        if st['s'] == 'assign' and st['rv'].get('r') == 'agg' and (st['rv'].get('adt') or '').endswith('RemoteParticipantInfo') and 'guid_prefix' in (st['rv'].get('fields') or []):
+            v = ogv.of_operand(st['rv']['ops'][st['rv']['fields'].index('guid_prefix')], bb, si)
+            okp = v == ('param', 5)
+    rep.check(okp, 'R19.2', 'validate_remote_identity/remembers-remote-guid', 'RemoteParticipantInfo.guid_prefix = the prefix validate_remote_identity was given',
+              'validate_remote_identity does not remember the GUID prefix of the remote participant it creates the identity handle for: the handshake cannot tell whose GUID the '
+              'certificate has to be bound to', vr.where())
 
     # ---------------------------------------------------------------- R19.3
     n_calls = 0
